@@ -278,15 +278,19 @@ def run(ctx):
     ctx.count(f'environment:cartopy PlateCarree stand-in {"installed" if cartopy_standin() else "not needed"}')
     exprs, plans = [], []
     pick_exprs, pick_plans = [], []
-    for n in range(n_ds):
+    for n in range(n_ds + 1):
         fam = gen.FAMILIES[n % len(gen.FAMILIES)]
         kw = {'invalid': False} if fam != 'cf1d' else {}
+        long_model = n == n_ds
+        if long_model:
+            # a model 330 cells long: a path that runs its whole length and ends a few metres inside its last cell
+            fam, kw = 'cf1d', dict(ny=3, nx=330, bounds=True)
         d = gen.any_dataset(rng, fam, **kw)
         nm1, _ = gen.DEPTH_NAMES.get(d.family, (None, None))
         ds, sp = gen.add_depth(rng, d.ds, dim='k', name=nm1, positive='attr', second=False)
         depth_name = sp['coords'][0]['name']
         # a third of the datasets sit at high latitude, where a degree of longitude is half a degree of latitude
-        shift = rng.choice([0.0, 0.0, 56.0])
+        shift = rng.choice([0.0, 0.0, 56.0]) if not long_model else 0.0
         if shift:
             ds = shift_latitudes(ds, shift)
         gdims = d.spec['kinds']['face']
@@ -310,7 +314,18 @@ def run(ctx):
         ctx.count(f'family:{d.family}')
         ctx.count(f'latitude shift:{shift}')
         label = f'{label} north={shift}'
-        for kind, pts in make_paths(rng, polys, 5 if quick else 8):
+        if long_model:
+            nx_l = ds.sizes[gdims[1]]
+            first, last = polys[nx_l], polys[2 * nx_l - 1]               # first and last cell of the middle row
+            cy = (min(y for x, y in first) + max(y for x, y in first)) / 2
+            x_start = (min(x for x, y in first) + max(x for x, y in first)) / 2
+            xs_last = sorted({x for x, y in last})
+            towards = xs_last[0] if abs(xs_last[0] - x_start) < abs(xs_last[-1] - x_start) else xs_last[-1]
+            x_end = towards + (2.0 ** -15 if towards > x_start else -2.0 ** -15)       # 3e-5 degrees (a few metres) inside the last cell
+            paths = [('long_path_ending_just_inside_a_cell', [(float(x_start), float(cy)), (float(x_end), float(cy))])]
+        else:
+            paths = make_paths(rng, polys, 5 if quick else 8)
+        for kind, pts in paths:
             path = [fpt(p) for p in pts]
             want, breaks = oracle_pieces(path, rings)
             case = {'dataset': label, 'path': pts, 'path_kind': kind}
